@@ -145,3 +145,43 @@ fn named_inputs_never_panic() {
     }
     }
 }
+
+/// C09: "for every token sequence over the full vocabulary of installed primitives ... truncated at any point":
+/// every primitive followed by every argument shape from a fixed list (and every pair of primitives), in batch mode so
+/// that every recovery path runs to the end. Excluded: \sleep, \dumpFormat, \dumpValidate (side effects on the host).
+#[test]
+fn primitive_grid_never_panics() {
+    std::panic::set_hook(Box::new(|info| { println!("PANICLOC {}", info.to_string().replace('\n', " ").chars().take(240).collect::<String>()); }));
+    let prims = ["advance", "batchmode", "catcode", "closein", "chardef", "count", "countdef", "day", "def", "dimen", "divide", "else", "endinput",
+        "endlinechar", "errorstopmode", "expandafter", "fi", "gdef", "global", "globaldefs", "ifcase", "ifeof", "iffalse", "ifnum", "ifodd", "iftrue",
+        "input", "jobname", "let", "long", "mathchardef", "mathcode", "month", "multiply", "newInt", "newIntArray", "noexpand", "nonstopmode", "or", "openin",
+        "outer", "read", "relax", "scrollmode", "skip", "the", "time", "toks", "toksdef", "tracingmacros", "year"];
+    let shapes = ["", " ", "1", "-1", "{", "}", "x", "\\relax", "\\count1", "=1", "\\undefinedcs", "#", "~", "2147483647 ", "-2147483647 ", "{a}{b}", "\\par",
+        "1=1", "1 1", "\\a", "\\a=1", "\\a\\a", "16=x", "255 ", "256 ", "32768 ", "-1=\\a", "1 to\\a", "\\a{#1}", "\\a#1#2{#2#1}", "\\a#1#1{}", "\\a#2{}",
+        "\\a#1{#2}", "\\a{", "\\a}", "`", "`\\", "\"G", "'9", "1pt", "1pt plus", "1pt plus 1fil minus", "1.", ".", "--", "1true", "\\the", "\\the\\count", "é", "\u{10ffff}"];
+    let mut n = 0u64;
+    let mut failures = 0;
+    let mut try_src = |src: String| -> bool {
+        let s2 = src.clone();
+        let r = std::panic::catch_unwind(move || {
+            let mut vm = vm::VM::<StdLibState>::new();
+            vm.push_source("input.tex", s2).unwrap();
+            match crate::script::run_to_string(&mut vm) { Ok(s) => s, Err(err) => format!("{err}") }
+        });
+        if r.is_err() {
+            println!("WITNESS {{\"fn\": \"run\", \"source\": \"{}\", \"observed\": \"panic\", \"expected\": \"success or a structured error that renders to text\"}}", src.escape_default().to_string().replace('"', "'").replace('\\', "/"));
+            return false;
+        }
+        true
+    };
+    for p in prims { for s in shapes { for mode in ["\\batchmode ", ""] {
+        n += 1;
+        if !try_src(format!("{mode}\\def\\a{{z}}\\{p} {s}")) { failures += 1; if failures >= 12 { return; } }
+    } } }
+    for p in prims { for q in prims {
+        n += 1;
+        if !try_src(format!("\\batchmode \\{p}\\{q} 1 ")) { failures += 1; if failures >= 12 { return; } }
+        if !try_src(format!("\\batchmode \\{p} 1\\{q}")) { failures += 1; if failures >= 12 { return; } }
+    } }
+    println!("STATS {{\"driver\": \"primitive grid\", \"programs\": {n}}}");
+}
